@@ -33,7 +33,25 @@ def gen_for_exec(rng):
     return prog, nv
 
 
-def run_many(chk, focus, nruns, wlat=0.02, extra_programs=()):
+def matrix_runs():
+    """Deterministic part of every tier: one unfused chain whose operations all have many more tasks than the batch size, on every
+    concurrent executor x batch_size x compute_arrays_in_parallel (refills and later operations exercise the executor's
+    create_futures_func beyond the first submission of the first operation)."""
+    inp = dict(shape=[8, 6], chunks=[1, 2], dtype="int64", seed=3, pattern="lin", src="asarray")
+    steps = [dict(op="negative", args=[0]), dict(op="scalar_add", args=[1], kw=dict(k=2)), dict(op="add", args=[2, 0]),
+             dict(op="sum", args=[3], kw=dict(axis=0))]
+    prog = dict(inputs=[inp], steps=steps, outs=[4, 2], family="matrix")
+    nv = programs.Interp(np, False).run(prog)
+    out = []
+    for exname in ("threads", "processes"):
+        for bs in (1, 3):
+            for par in (False, True):
+                kw = dict(batch_size=bs, compute_arrays_in_parallel=par, max_workers=2)
+                out.append((prog, nv, exname, kw, False))
+    return out
+
+
+def run_many(chk, focus, nruns, wlat=0.02, extra_programs=(), matrix=True):
     import cubed
     import cubed.array_api as xp
     from cubed.runtime.create import create_executor
@@ -44,16 +62,21 @@ def run_many(chk, focus, nruns, wlat=0.02, extra_programs=()):
     attempts = 0
     t0 = time.time()
     todo = list(extra_programs)
+    forced = matrix_runs() if matrix else []
+    nruns += len(forced)
     while len(docs) < nruns and attempts < nruns * 4:
         attempts += 1
-        if todo and attempts % 2 == 1:
-            prog, nv = todo.pop(0)
+        if forced:
+            prog, nv, exname, kw, optimize = forced.pop(0)
         else:
-            prog, nv = gen_for_exec(rng)
-        exname, kw = settings(rng, k)
-        if prog.get("family") and exname != "single-threaded" and rng.random() < 0.8:
-            kw["compute_arrays_in_parallel"] = True      # hand-shaped DAGs are about generations: run them in parallel mostly
-        optimize = rng.random() < 0.6
+            if todo and attempts % 2 == 1:
+                prog, nv = todo.pop(0)
+            else:
+                prog, nv = gen_for_exec(rng)
+            exname, kw = settings(rng, k)
+            if prog.get("family") and exname != "single-threaded" and rng.random() < 0.8:
+                kw["compute_arrays_in_parallel"] = True      # hand-shaped DAGs are about generations: run them in parallel mostly
+            optimize = rng.random() < 0.6
         with traced.Session(wlat=wlat, wlat_random=True) as s:
             spec = s.spec()
             try:
